@@ -39,6 +39,7 @@ type FuncContract struct {
 	Loops    map[int]*LoopSpec
 	MayPanic bool
 	Inline   bool   // callers inline the body instead of using the contract
+	InlineOnly bool // never verified on its own
 	Trusted  string // non-empty: body is not verified, contract is assumed (reason)
 	Pure     bool
 	Entry    bool // verify as thread entry even if unexported
@@ -182,6 +183,10 @@ func ParseSpecFile(path, pkgPath string, ps *PkgSpec) error {
 		case "func", "closure":
 			curO = nil
 			curF = &FuncContract{Pkg: pkgPath, Name: rest, Loops: map[int]*LoopSpec{}, File: path, Line: l.n, Opts: map[string]string{}}
+			if kw == "closure" {
+				// annotations for a closure that only ever runs inlined in its creator (e.g. a HoldLock callback)
+				curF.Inline, curF.InlineOnly = true, true
+			}
 			if _, dup := ps.Funcs[rest]; dup {
 				return fail(l.n, "duplicate contract for %s", rest)
 			}
